@@ -475,18 +475,15 @@ Definition rw_meth (tr : str -> str) (m : meth) : outcome meth :=
   | Ok d => OOk (mkMeth d (m_names m) (m_doc m) (m_params m))
   | Err => OErr
   end.
-(* one class: source name through [tr], target name through [dtr] (`dst.unwrap()` panics when the
-   class has no target name), descriptors through [tr] *)
+(* one class: source name through [tr], target name (if the class has one) through [dtr],
+   descriptors through [tr].  (Names::try_from refuses empty names; names of a mapping tree are
+   never empty and neither [tr] nor [dtr] produce an empty name from a non-empty one.) *)
 Definition rw_class (tr dtr : str -> str) (c : class) : outcome class :=
   match c_names c with
   | [Some src; dst] =>
-      match dst with
-      | None => OPanic
-      | Some d =>
-          obind (add_children field_key key2_eqb (rw_field tr) (c_fields c) []) (fun fs =>
-          obind (add_children meth_key key2_eqb (rw_meth tr) (c_methods c) []) (fun ms =>
-          OOk (mkClass [Some (tr src); Some (dtr d)] (c_doc c) fs ms)))
-      end
+      obind (add_children field_key key2_eqb (rw_field tr) (c_fields c) []) (fun fs =>
+      obind (add_children meth_key key2_eqb (rw_meth tr) (c_methods c) []) (fun ms =>
+      OOk (mkClass [Some (tr src); option_map dtr dst] (c_doc c) fs ms)))
   | _ => OErr      (* not a Mappings<2> node with a key: cannot be built *)
   end.
 Definition rw_mappings (tr dtr : str -> str) (M : mappings) : outcome mappings :=
@@ -565,14 +562,14 @@ Definition read_line (line : str) : res nest :=
   | _ => Err
   end.
 
-(* BufRead::lines: split at LF, one trailing CR removed per line, no last empty line *)
+(* BufRead::lines: a line ends at LF; a CR directly before that LF is removed too; what follows the
+   last LF is a line of its own if it is not empty (a CR at its end stays) *)
 Definition strip_cr (l : str) : str :=
   match rev l with c :: r => if N.eqb c cCR then rev r else l | [] => l end.
 Definition lines (text : str) : list str :=
-  match text with
+  match rev (split_on cLF text) with
+  | last :: r => map strip_cr (rev r) ++ (if is_nil last then [] else [last])
   | [] => []
-  | _ => let ls := split_on cLF text in
-         map strip_cr (match rev ls with [] :: r => rev r | _ => ls end)
   end.
 Fixpoint read_lines (ls : list str) (T : table) : res table :=
   match ls with
